@@ -159,14 +159,15 @@ def physical(dss, seed):
     return [DS(d.name, d.comps, harness.seeded_order(d.rows, seed)) for d in dss]
 
 
-def judge(e, dss, scalars, seed=0):
-    """run 'DS_r <- e' and compare with the reference -> (deviations, dv, engine outcome)
-    deviation = (kind, key tuple or None, detail)"""
+def reference(e, dss, scalars):
     env = {"datasets": {d.name: d for d in dss}, "scalars": {n: v for n, (_, v) in (scalars or {}).items()}}
-    dv = R.eval_ds(e, env)
-    is_scalar = not isinstance(dv, R.DVal)
-    out = refbase.run(statement(e, is_scalar), physical(dss, seed), scalars or None)
+    return R.eval_ds(e, env)
+
+
+def verdict(dv, out, resname):
+    """compare one engine outcome (harness.call tuple) with the reference -> deviations (kind, key or None, detail)"""
     devs = []
+    is_scalar = not isinstance(dv, R.DVal)
     if is_scalar:
         must, may_err, may_any = dv == [ERR], ERR in dv, ANY in dv
     else:
@@ -180,28 +181,39 @@ def judge(e, dss, scalars, seed=0):
                 devs.append(("raw-error:%s" % out[2], None, out[4][:160]))
         elif not (must or may_err or may_any):
             devs.append(("vtl-error:%s" % out[3], None, out[4][:160]))
-        return devs, dv, out
+        return devs
     if must:
         devs.append(("no-error", None, "a result was returned"))
-        return devs, dv, out
-    res = out[1].get("x" if is_scalar else "DS_r")
+        return devs
+    res = out[1].get(resname)
+    if res is None:
+        devs.append(("missing-result", None, "no result named %s" % resname))
+        return devs
     if is_scalar:
         val = getattr(res, "value", None)
         if not matches(val, dv):
             devs.append(("wrong-value", None, ("x", cv(val), [a for a in dv if a is not ERR])))
-        return devs, dv, out
+        return devs
     got = harness.dataset_rows(res) or []
     for d in diff_dataset(dv, got):
         if d[0] == "wrong-value":
             c, g, _ = d[2]
             alts = None
-            for key, cells in dv.rows.items():
+            for key, cells_ in dv.rows.items():
                 if tuple(cv(k) for k in key) == d[1]:
-                    alts = [a for a in cells[c] if a is not ERR]
+                    alts = [a for a in cells_[c] if a is not ERR]
             devs.append(("wrong-value", d[1], (c, g, alts)))
         else:
             devs.append((d[0], d[1], d[2]))
-    return devs, dv, out
+    return devs
+
+
+def judge(e, dss, scalars, seed=0):
+    """run 'DS_r <- e' alone and compare with the reference -> (deviations, dv, engine outcome)"""
+    dv = reference(e, dss, scalars)
+    is_scalar = not isinstance(dv, R.DVal)
+    out = refbase.run(statement(e, is_scalar), physical(dss, seed), scalars or None)
+    return verdict(dv, out, "x" if is_scalar else "DS_r"), dv, out
 
 
 def real(devs):
@@ -402,11 +414,31 @@ def outcome_of(alts):
     return "null" if vals[0] is None else "value"
 
 
+PENDING = []
+
+
+class Req:
+    """one statement to execute: kind clean (no error allowed) | must (must raise) | embedded | maybe (lenient)"""
+    __slots__ = ("e", "dss", "scalars", "kind", "level", "case_col", "shape", "opkey")
+
+    def __init__(self, e, dss, scalars, kind, level, case_col, shape, opkey):
+        self.e, self.dss, self.scalars, self.kind = e, dss, scalars, kind
+        self.level, self.case_col, self.shape, self.opkey = level, case_col, shape, opkey
+
+    def weight(self):
+        return 1 + sum(len(d.rows) for d in self.dss) // 400 + (3 if self.dss else 0)
+
+
+def submit(e, dss, scalars, kind, level, case_col, shape, opkey):
+    PENDING.append(Req(e, dss, scalars, kind, level, case_col, shape, opkey))
+
+
 def run_split(rec, e, dss, scalars, case_col, opkey, level, types, seed, shape=None, isolate_cap=None):
-    env = {"datasets": {d.name: d for d in dss}, "scalars": {n: v for n, (_, v) in (scalars or {}).items()}}
-    dv = R.eval_ds(e, env)
+    """record the cases of one packed statement and queue its runs: clean cases together, predicted-error cases alone
+    (and inside the larger dataset), cases the manual leaves open together and leniently"""
+    dv = reference(e, dss, scalars)
     ci = dv.ids.index(case_col)
-    must, maybe, seen_cases = set(), set(), {}
+    must, maybe, seen_cases = set(), set(), set()
     for key, cells in dv.rows.items():
         c = key[ci]
         ocs = [outcome_of(cells[m]) for m in dv.meas]
@@ -423,57 +455,108 @@ def run_split(rec, e, dss, scalars, case_col, opkey, level, types, seed, shape=N
             sample = {"statement": statement(e), "level": level, "datapoint": {k: cv(v) for k, v in kb.items()},
                       "inputs": input_class(dss, kb, scalars), "allowed_outcomes": {m: [repr(a) for a in cells[m]] for m in dv.meas}}
         rec.case((opkey, level, types, null_pattern(dss, kb), oc), oc, nontrivial=oc not in ("any", "optional"), sample=sample)
-        seen_cases.setdefault(c, 0)
+        seen_cases.add(c)
     all_cases = sorted({r.get(case_col) for d in dss if case_col in d.names() for r in d.rows}, key=repr)
     for c in all_cases:
         if c not in seen_cases:
             rec.case((opkey, level, types, "-", "absent"), "absent")
     maybe -= must
     clean = [c for c in all_cases if c not in must and c not in maybe]
-    # 1. the clean cases, one run
     if clean or not all_cases:
-        rec.count("engine_runs")
-        sub = filter_case(dss, case_col, clean) if (must or maybe) else dss
-        devs, _, _ = judge(e, sub, scalars, seed)
-        note_soft(rec, devs, opkey)
-        if real(devs):
-            report(rec, level, e, sub, scalars, devs, case_col, shape)
-    # 2. error cases: isolated (each must raise) and inside the larger dataset (must raise as well)
+        submit(e, filter_case(dss, case_col, clean) if (must or maybe) else dss, scalars, "clean", level, case_col, shape, opkey)
     if must:
         ordered = sorted(must, key=repr)
-        iso = ordered if isolate_cap is None else ordered[:isolate_cap]
-        for c in iso:
-            rec.count("engine_runs")
-            sub = filter_case(dss, case_col, [c])
-            devs, _, _ = judge(e, sub, scalars, seed)
-            if real(devs):
-                report(rec, level, e, sub, scalars, devs, case_col, shape)
-        rec.count("engine_runs")
-        sub = filter_case(dss, case_col, clean + ordered)
-        devs, _, _ = judge(e, sub, scalars, seed)
-        if real(devs):
-            # the culprit is one error row inside a larger dataset
-            one = filter_case(dss, case_col, clean[:3] + ordered[:1])
-            d1, _, _ = judge(e, one, scalars, seed)
-            if real(d1):
-                sub, devs = one, d1
-            report_embedded(rec, level, e, sub, scalars, devs, shape)
-    # 3. cases on which the manual is silent / two readings: any of the allowed outcomes, errors accepted
+        for c in (ordered if isolate_cap is None else ordered[:isolate_cap]):
+            submit(e, filter_case(dss, case_col, [c]), scalars, "must", level, case_col, shape, opkey)
+        submit(e, filter_case(dss, case_col, clean + ordered), scalars, "embedded", level, case_col, shape, opkey)
     if maybe:
+        submit(e, filter_case(dss, case_col, sorted(maybe, key=repr)), scalars, "maybe", level, case_col, shape, opkey)
+
+
+def submit_one(rec, e, dss, scalars, level, shape, opkey, key):
+    """one unpacked statement; the kind follows from the reference"""
+    dv = reference(e, dss, scalars)
+    if isinstance(dv, R.DVal):
+        cells = [c[m] for c in dv.rows.values() for m in dv.meas]
+        oc = "error" if any(c == [ERR] for c in cells) else ("any" if any(ANY in c or ERR in c for c in cells) else
+                                                             ("rows" if dv.rows else "empty-result"))
+    else:
+        oc = outcome_of(dv)
+    rec.case(key + (oc,), oc, nontrivial=oc != "any")
+    submit(e, dss, scalars, {"error": "must", "any": "maybe", "value-or-error": "maybe"}.get(oc, "clean"), level, None, shape, opkey)
+
+
+def rename(e, sfx):
+    k = e[0]
+    if k == "ds":
+        return ("ds", e[1] + sfx)
+    if k == "sc":
+        return ("sc", e[1] + sfx, e[2])
+    if k == "mem":
+        return ("mem", rename(e[1], sfx), e[2])
+    if k == "calc":
+        return ("calc", rename(e[1], sfx), tuple((n, rename(x, sfx)) for n, x in e[2]))
+    if k == "op":
+        return ("op", e[1], tuple(rename(a, sfx) for a in e[2])) + tuple(e[3:])
+    return e
+
+
+def run_together(rec, reqs, seed):
+    """several independent statements in one script (each on its own inputs) -> list of deviations per request;
+    if the script as a whole raises it is split in halves until the raising statement is alone"""
+    if len(reqs) == 1:
+        r = reqs[0]
         rec.count("engine_runs")
-        sub = filter_case(dss, case_col, sorted(maybe, key=repr))
-        devs, _, out = judge(e, sub, scalars, seed)
-        note_soft(rec, devs, opkey)
-        if out[0] == "err" and out[1] == "vtl" and len(maybe) > 1 and len(maybe) <= 12:
-            for c in sorted(maybe, key=repr):
-                rec.count("engine_runs")
-                s1 = filter_case(dss, case_col, [c])
-                d1, _, _ = judge(e, s1, scalars, seed)
-                note_soft(rec, d1, opkey)
-                if real(d1):
-                    report(rec, level, e, s1, scalars, d1, case_col, shape)
-        elif real(devs):
-            report(rec, level, e, sub, scalars, devs, case_col, shape)
+        devs, _, _ = judge(r.e, r.dss, r.scalars, seed)
+        return [devs]
+    stmts, dss, scalars, dvs, names = [], [], {}, [], []
+    for i, r in enumerate(reqs):
+        sfx = "_%d" % i
+        dv = reference(r.e, r.dss, r.scalars)
+        is_scalar = not isinstance(dv, R.DVal)
+        name = ("x" if is_scalar else "DS_r") + sfx
+        stmts.append("%s <- %s;" % (name, R.render(rename(r.e, sfx))))
+        dss.extend(DS(d.name + sfx, d.comps, d.rows) for d in r.dss)
+        for n, v in (r.scalars or {}).items():
+            scalars[n + sfx] = v
+        dvs.append(dv)
+        names.append(name)
+    rec.count("engine_runs")
+    out = refbase.run("\n".join(stmts), physical(dss, seed), scalars or None)
+    if out[0] == "ok":
+        return [verdict(dv, out, name) for dv, name in zip(dvs, names)]
+    h = len(reqs) // 2
+    return run_together(rec, reqs[:h], seed) + run_together(rec, reqs[h:], seed)
+
+
+def flush(rec, seed):
+    reqs, PENDING[:] = list(PENDING), []
+    for kind in ("clean", "maybe"):
+        group, w = [], 0
+        todo = [r for r in reqs if r.kind == kind]
+        packs = []
+        for r in todo:
+            if group and w + r.weight() > 40:
+                packs.append(group)
+                group, w = [], 0
+            group.append(r)
+            w += r.weight()
+        if group:
+            packs.append(group)
+        for g in packs:
+            for r, devs in zip(g, run_together(rec, g, seed)):
+                note_soft(rec, devs, r.opkey)
+                if real(devs):
+                    report(rec, r.level, r.e, r.dss, r.scalars, devs, r.case_col, r.shape)
+    for r in reqs:
+        if r.kind in ("must", "embedded"):
+            rec.count("engine_runs")
+            devs, _, _ = judge(r.e, r.dss, r.scalars, seed)
+            if real(devs):
+                if r.kind == "must":
+                    report(rec, r.level, r.e, r.dss, r.scalars, devs, r.case_col, r.shape)
+                else:
+                    report_embedded(rec, r.level, r.e, r.dss, r.scalars, devs, r.shape)
 
 
 def note_soft(rec, devs, opkey):
@@ -644,49 +727,18 @@ def job_table(rec, expr, opkey, seed, isolate_cap):
 
 def job_scalar(rec, op, variant, form, seed):
     argt = variant[0]
-    stmts, scalars = [], {}
-    if form == "input":
-        for i, t in enumerate(argt):
-            for k, v in enumerate(R.DOMAIN[t]):
-                scalars["sc_%d_%d" % (i, k)] = (t, v)
+    types = ",".join(argt)
     for combo in itertools.product(*[range(len(R.DOMAIN[t])) for t in argt]):
+        scalars = {}
         if form == "literal":
             args = [("lit", t, R.DOMAIN[t][k]) for t, k in zip(argt, combo)]
         else:
-            args = [("sc", "sc_%d_%d" % (i, k), t) for i, (t, k) in enumerate(zip(argt, combo))]
+            args = [("sc", "sc_%d" % i, t) for i, t in enumerate(argt)]
+            scalars = {"sc_%d" % i: (t, R.DOMAIN[t][k]) for i, (t, k) in enumerate(zip(argt, combo))}
         e = mk(op, args, variant)
         vals = [R.DOMAIN[t][k] for t, k in zip(argt, combo)]
-        alts = R.eval_scalar(e, {n: v for n, (_, v) in scalars.items()})
-        stmts.append((e, vals, alts))
-    types = ",".join(argt)
-    clean, single = [], []
-    for e, vals, alts in stmts:
-        oc = outcome_of(alts)
-        rec.case((op, "scalar:" + form, types, "".join("n" if v is None else "v" for v in vals), oc), oc, nontrivial=oc != "any")
-        (clean if oc in ("value", "null") else single).append((e, vals, alts))
-    clean = harness.seeded_order(clean, seed)
-    for chunk in harness.chunks(clean, 40):
-        rec.count("engine_runs")
-        script = "\n".join("x%d <- %s;" % (i, R.render(e)) for i, (e, _, _) in enumerate(chunk))
-        used = scalars_used([e for e, _, _ in chunk], scalars)
-        out = refbase.run(script, [], used or None)
-        bad = []
-        if out[0] == "ok":
-            for i, (e, vals, alts) in enumerate(chunk):
-                r = out[1].get("x%d" % i)
-                if r is None or not matches(getattr(r, "value", None), alts):
-                    bad.append((e, vals, alts))
-        else:
-            bad = chunk
-        for e, vals, alts in bad:
-            single.append((e, vals, alts))
-    for e, vals, alts in single:
-        rec.count("engine_runs")
-        used = scalars_used([e], scalars)
-        devs, _, _ = judge(e, [], used, seed)
-        note_soft(rec, devs, op)
-        if real(devs):
-            report(rec, "scalar", e, [], used, devs)
+        submit_one(rec, e, [], scalars or None, "scalar", None, op,
+                   (op, "scalar:" + form, types, "".join("n" if v is None else "v" for v in vals)))
 
 
 def scalars_used(exprs, scalars):
@@ -803,14 +855,15 @@ def job_dscalar(rec, op, lt, rt, nmeas, side, form, seed):
             sc, scalars = ("sc", "sc_1", st), {"sc_1": (st, v)}
         args = [("ds", "DS_1"), sc] if side == "ds*sc" else [sc, ("ds", "DS_1")]
         e = dsnode(op, args)
-        run_split(rec, e, [d1], scalars, "C_id", op, "dataset", "%s:%s,%s:m%d:%s:%s" % (side, lt, rt, nmeas, form, vclass(v)), seed, shape=side)
+        run_split(rec, e, [d1], scalars, "C_id", op, "dataset", "%s:%s,%s:m%d:%s:%s" % (side, lt, rt, nmeas, form, vclass(v)), seed, shape=side,
+                  isolate_cap=3)
 
 
 def job_dsparam(rec, op, mt, params, nmeas, seed):
     cases = list(enumerate(relations(mt)))
     d1 = packed("DS_1", [mt] * nmeas, cases)
     e = dsnode(op, [("ds", "DS_1")] + [lit_of(p) for p in params])
-    run_split(rec, e, [d1], None, "C_id", op, "dataset", "fn(ds%s):%s:m%d" % ("".join(",p" for _ in params), mt, nmeas), seed, shape="unary(ds)")
+    run_split(rec, e, [d1], None, "C_id", op, "dataset", "fn(ds%s):%s:m%d" % ("".join(",p" for _ in params), mt, nmeas), seed, shape="unary(ds)", isolate_cap=4)
 
 
 def job_dsset(rec, op, mt, members, seed):
@@ -843,13 +896,7 @@ def unpacked_shapes(lt, rt):
 def job_unpacked(rec, op, lt, rt, seed):
     for label, d1, d2 in unpacked_shapes(lt, rt):
         e = dsnode(op, [("ds", "DS_1"), ("ds", "DS_2")])
-        rec.count("engine_runs")
-        devs, dv, out = judge(e, [d1, d2], None, seed)
-        note_soft(rec, devs, op)
-        n = len(dv.rows)
-        rec.case((op, "dataset", "ds*ds:%s,%s" % (lt, rt), label, "rows" if n else "empty-result"), "rows" if n else "empty-result")
-        if real(devs):
-            report(rec, "dataset", e, [d1, d2], None, devs, None, "ds*ds:" + label)
+        submit_one(rec, e, [d1, d2], None, "dataset", "ds*ds:" + label, op, (op, "dataset", "ds*ds:%s,%s" % (lt, rt), label))
 
 
 def job_zero_divisor(rec, op, lt, rt, seed):
@@ -863,15 +910,10 @@ def job_zero_divisor(rec, op, lt, rt, seed):
     for label, d1, d2 in [
         ("matched-zero", mkds("DS_1", lt, [(1, a), (2, a)]), mkds("DS_2", rt, [(1, DS_DOM[rt][2]), (2, z)])),
         ("unmatched-zero", mkds("DS_1", lt, [(1, a), (2, a)]), mkds("DS_2", rt, [(1, DS_DOM[rt][2]), (3, z)])),
-        ("zero-over-null", mkds("DS_1", lt, [(1, None)]), mkds("DS_2", rt, [(1, z)])),
+        ("zero-under-null", mkds("DS_1", lt, [(1, None)]), mkds("DS_2", rt, [(1, z)])),
     ]:
         e = dsnode(op, [("ds", "DS_1"), ("ds", "DS_2")])
-        rec.count("engine_runs")
-        devs, dv, out = judge(e, [d1, d2], None, seed)
-        oc = "error" if must_raise(dv) else ("value-or-error" if may_raise(dv) else "value")
-        rec.case((op, "dataset", "ds*ds:%s,%s" % (lt, rt), label, oc), oc)
-        if real(devs):
-            report(rec, "dataset", e, [d1, d2], None, devs, None, "ds*ds:" + label)
+        submit_one(rec, e, [d1, d2], None, "dataset", "ds*ds:" + label, op, (op, "dataset", "ds*ds:%s,%s" % (lt, rt), label))
 
 
 # dataset-level if-then-else: condition forms x operand shapes, 16 condition relations x 4 x 4 operand relations
@@ -1155,15 +1197,14 @@ def job_nested(rec, idx, seed):
 
 def job_scalar2(rec, outer, slot, inner, seed):
     """scalar level, depth 2, literals"""
-    pv = pair_variants(outer, slot, inner)
-    ov, iv = pv
-    doms = []
+    ov, iv = pair_variants(outer, slot, inner)
+    types = []
     for i, t in enumerate(ov[0]):
-        doms.extend([(x,) for x in iv[0]] if i == slot else [(t,)])
-    types = [d[0] for d in doms]
+        types.extend(iv[0] if i == slot else [t])
     if table_size([("x", t) for t in types]) > 300:
         return
-    stmts = []
+    opkey = "%s[%d]<%s" % (outer, slot, inner)
+    n_err = 0
     for combo in itertools.product(*[R.DOMAIN[t] for t in types]):
         vals = list(combo)
         args, k = [], 0
@@ -1176,30 +1217,14 @@ def job_scalar2(rec, outer, slot, inner, seed):
                 args.append(("lit", t, vals[k]))
                 k += 1
         e = mk(outer, args, ov)
-        stmts.append((e, vals, R.eval_scalar(e, {})))
-    opkey = "%s[%d]<%s" % (outer, slot, inner)
-    clean, single = [], []
-    for e, vals, alts in stmts:
-        oc = outcome_of(alts)
-        rec.case((opkey, "scalar:literal", ",".join(types), "".join("n" if v is None else "v" for v in vals), oc), oc, nontrivial=oc != "any")
-        if oc in ("value", "null"):
-            clean.append((e, vals, alts))
-        elif oc == "error" and len([1 for s in single if s[2] == [ERR]]) < 2:
-            single.append((e, vals, alts))
-    for chunk in harness.chunks(harness.seeded_order(clean, seed), 40):
-        rec.count("engine_runs")
-        out = refbase.run("\n".join("x%d <- %s;" % (i, R.render(e)) for i, (e, _, _) in enumerate(chunk)), [], None)
-        if out[0] == "ok":
-            bad = [c for i, c in enumerate(chunk) if out[1].get("x%d" % i) is None or not matches(getattr(out[1]["x%d" % i], "value", None), c[2])]
-        else:
-            bad = chunk
-        single.extend(sorted(bad, key=lambda c: R.render(c[0]))[:6])
-    for e, vals, alts in single:
-        rec.count("engine_runs")
-        devs, _, _ = judge(e, [], None, seed)
-        note_soft(rec, devs, opkey)
-        if real(devs):
-            report(rec, "scalar", e, [], None, devs)
+        alts = R.eval_scalar(e, {})
+        if alts == [ERR]:
+            n_err += 1
+            if n_err > 2:                       # at most two predicted-error statements are run alone
+                rec.case((opkey, "scalar:literal", ",".join(types), "".join("n" if v is None else "v" for v in vals), "error"), "error-not-run", nontrivial=False)
+                continue
+        submit_one(rec, e, [], None, "scalar", None, opkey,
+                   (opkey, "scalar:literal", ",".join(types), "".join("n" if v is None else "v" for v in vals)))
 
 
 def plan_thorough():
@@ -1274,8 +1299,11 @@ def batches(items, size):
 
 
 def work_batch(batch, rec):
+    seed = 0
     for it in batch[1]:
+        seed = it[-1]
         work(it, rec)
+    flush(rec, seed)
 
 
 class Check:
@@ -1348,7 +1376,7 @@ class Check:
             a, b = lim.split(":")
             items = items[int(a):int(b)]
         items = [tuple(it) + (seed,) for it in harness.seeded_order(items, seed)]
-        harness.pmap(work_batch, batches(items, 4), rec)
+        harness.pmap(work_batch, batches(items, 8), rec)
         aggregate(rec)
         # non-vacuity: every operator produced a non-null value at component level (depth 1) and was executed at every level
         if not only and not lim:
